@@ -53,6 +53,13 @@ def gen_cases(run):
         spec = {"kind": "stream", "g": g, "budget": H.gen_budget(rng, g), "cfgs": cfgs, "seed": rng.randrange(10 ** 6)}
         if cfgs and rng.random() < 0.2:
             spec["types"] = {"intervals": rng.choice(["np", "np32"])}  # intervals given as numpy integers
+        elif cfgs and not spec.get("pre_batch_size") and rng.random() < 0.2:
+            # the scheduler is built with another budget (across the zero / non-zero boundary) and batch size, then set to this configuration
+            # through its public attributes before it is iterated
+            zero = list(spec["budget"].values())[0] == 0
+            spec["reconfig"] = {"budget": "other" if zero else "zero"}
+            if rng.random() < 0.5:
+                spec["reconfig"]["batch"] = True
         if cfgs and rng.random() < 0.25:
             spec["pre_batch_size"] = rng.randint(1, g["N"])  # config objects shared with an earlier scheduler of another batch size
         if not cfgs:
@@ -98,7 +105,7 @@ def run_case(run, spec):
     g, budget, cfgs = spec["g"], spec["budget"], spec["cfgs"]
     (bkind, bval), = budget.items()
     M = g["M"]
-    ok, built = call_real(run, lambda: H.build_real(g, budget, cfgs, spec["seed"], "rec", pre_batch_size=spec.get("pre_batch_size"), types=spec.get("types")), crash_key="ctor-crash", what="InterleavedSampler(...)")
+    ok, built = call_real(run, lambda: H.build_real(g, budget, cfgs, spec["seed"], "rec", pre_batch_size=spec.get("pre_batch_size"), types=spec.get("types"), reconfig=spec.get("reconfig")), crash_key="ctor-crash", what="InterleavedSampler(...)")
     if not ok:
         return
     if spec.get("pre_batch_size"):
